@@ -16,6 +16,7 @@ from typing import Any, Iterator
 
 from .. import core, entries, progen
 from ..runner import Stats, Violation
+from ..runner import should_stop as runner_should_stop
 
 PROP = "C15"
 LEVEL = "fault_enumeration"
@@ -33,7 +34,7 @@ ASSUMPTIONS = [
     "hard budget 2*10^7 steps (fault-free runs of the workloads are <= 5*10^4 steps); a run over the first-stage budget (100 x fault-free + 2*10^5) is re-run under the hard budget before any verdict",
     "no verdict when an explicit loop count observed at run time (range() in the code generator) or a literal in a .for header exceeds 64: the statement exempts explicit loop counts",
     "an exception other than the step-budget signal (including RecursionError, UnicodeDecodeError) is a reported error; MemoryError under a 4 GiB address-space limit counts as non-termination (unbounded growth)",
-    "C-level loops (regular expressions) are not stepped; only the wall-clock safety net covers them",
+    "loops inside C code (regular expressions) execute no Python step: they are caught by a CPU-time limit on the child (20 s, confirmed under 90 s; a fault-free run needs ~0.02 s of CPU) - a verdict by CPU time, not by step count, so its replay is repeatable but not step-exact",
 ]
 REQUIRED_REACH = [
     "probe:fault_in:string",
@@ -48,6 +49,10 @@ REQUIRED_REACH = [
 
 HARD_BUDGET = 20_000_000
 MEM_LIMIT = 4 << 30
+# CPU-time limits of the child (RLIMIT_CPU), only for loops the step clock cannot see.  A fault-free run
+# takes ~0.02 s of CPU; 2*10^7 steps take < 15 s.  CPU time does not depend on machine load.
+CPU_STAGE1_S = 20
+CPU_STAGE2_S = 90
 
 ZOO = """*=0x008000
 /* block comment { ( ' */
@@ -93,7 +98,7 @@ SOUP_TOKENS = [
     "|", "<<", ">>", "==", "!=", "<", ">", "~", ".", ":", "\\", "?", "\0", "\t", "\n", "\n", "identifier=1", "bank_range=0,1", "é", "x := 1", "i := 0, 2",
 ]  # fmt: skip
 SOUP_TOKENS += [c for c in "!\"#$%&'()*+,-./:;<=>?@[\\]^_`{|}~"]  # every ASCII punctuation character on its own
-SOUP_TOKENS += ["lda #1 %", "lda (", "lda [", "lda #(", "lda.w #A %", ".db 1 %", "'main.s'", ".include 'main.s'", "a.b.c", "a..b", "0x", "0b", "0o7", "1e5", "lda.", "lda.w", ".", "..", ".db", ".db ,", ",,", "{{ x", "x }}", "*=", "@= 1", "x :=", "x =", "m(,)", "m((", "))"]
+SOUP_TOKENS += ["lda #-1", "lda -1", "#-1", "-1", ".ascii 'a fairly long string, never closed, with enough characters", "'" + "x" * 40, "lda #1 %", "lda (", "lda [", "lda #(", "lda.w #A %", ".db 1 %", "'main.s'", ".include 'main.s'", "a.b.c", "a..b", "0x", "0b", "0o7", "1e5", "lda.", "lda.w", ".", "..", ".db", ".db ,", ",,", "{{ x", "x }}", "*=", "@= 1", "x :=", "x =", "m(,)", "m((", "))"]
 
 
 def lexical_bucket(text: bytes, at: int) -> str:
@@ -296,7 +301,7 @@ def gen_case(cseed: int, tier: str) -> dict[str, Any]:
 
 def plan(tier: str) -> dict[str, Any]:
     fixed = [{"type": "base", "seed": 1, "workload": zoo_workload()}] + [{"type": "base", "seed": 2 + i, "workload": wl} for i, wl in enumerate(sample_workloads())]
-    return {"fixed": fixed, "seeded": 96 if tier == "quick" else 0, "chunk": 1, "wall_cap_s": 240, "minimise_s": 40}
+    return {"fixed": fixed, "seeded": 64 if tier == "quick" else 0, "chunk": 1, "wall_cap_s": 240, "minimise_s": 40}
 
 
 # ---------------------------------------------------------------------------
@@ -373,7 +378,11 @@ def run_single(case: dict[str, Any], stats: Stats) -> list[Violation]:
     entry = case["entry"]
     e0 = int(case.get("e0") or 50_000)
     spec = make_spec(entry, wl["mapping"], budget1(e0))
-    o = entries.execute_one(files, roles, spec, {}, [], mem_bytes=MEM_LIMIT)
+    try:
+        o = entries.execute_one(files, roles, spec, {}, [], mem_bytes=MEM_LIMIT, cpu_s=CPU_STAGE1_S)
+    except core.ChildCpuExceeded:
+        # no interpreter step went by for seconds of CPU time: a loop inside C code (e.g. a regular expression)
+        o = {"kind": "timeout", "cpu": True, "steps": 0, "events": [], "fired": []}
     stats.add_outcome(o)
     changed = faulted != original
     if case["faults"]:
@@ -401,7 +410,10 @@ def run_single(case: dict[str, Any], stats: Stats) -> list[Violation]:
         return []
     # over the first-stage budget: confirm under the hard budget
     spec2 = make_spec(entry, wl["mapping"], HARD_BUDGET)
-    o2 = entries.execute_one(files, roles, spec2, {}, [], mem_bytes=MEM_LIMIT, wall_s=600)
+    try:
+        o2 = entries.execute_one(files, roles, spec2, {}, [], mem_bytes=MEM_LIMIT, wall_s=900, cpu_s=CPU_STAGE2_S)
+    except core.ChildCpuExceeded:
+        o2 = {"kind": "timeout", "cpu": True, "steps": 0, "events": [], "fired": [], "stuck_in": ["(no Python step for %d s of CPU time: loop inside C code)" % CPU_STAGE2_S]}
     stats.add_outcome(o2)
     stats.bump("second_stage_runs")
     mem2 = o2.get("exc", {}) and o2["exc"]["type"] == "MemoryError"
@@ -414,9 +426,11 @@ def run_single(case: dict[str, Any], stats: Stats) -> list[Violation]:
         return []
     bucket = lexical_bucket(original, case["faults"][0].get("at", case["faults"][0].get("a", 0))) if case["faults"] else "unfaulted"
     what = "ran out of memory (4 GiB)" if mem2 else f"still running after {HARD_BUDGET} interpreter steps"
+    if o2.get("cpu"):
+        what = f"used {CPU_STAGE2_S} s of CPU time without returning (and without executing Python-level steps)"
     tail = text[-60:].replace("\n", "\\n")
     end_bucket = lexical_bucket(faulted, max(0, len(faulted) - 1)) if faulted else "empty"
-    sig = f"{entry}:ends_in_{end_bucket}" + (":has_nul" if b"\0" in faulted else "") + (":non_ascii" if any(b > 127 for b in faulted) else "")
+    sig = f"{entry}:ends_in_{end_bucket}" + (":has_nul" if b"\0" in faulted else "") + (":non_ascii" if any(b > 127 for b in faulted) else "") + (":cpu" if o2.get("cpu") else "")
     return [
         Violation(
             "non_termination",
@@ -461,6 +475,8 @@ def run_case(case: dict[str, Any], stats: Stats) -> list[Violation]:
     found: list[Violation] = []
     seen: set[str] = set()
     for sub in expand(case, stats):
+        if runner_should_stop():
+            break
         for v in run_single(sub, stats):
             key = v.klass + "|" + v.sig
             if key not in seen:
